@@ -94,7 +94,7 @@ PassCands(q, a0, st0, o) ==
      ELSE { [cur |-> o.pool, asg |-> [r \in Req |-> IF r \in unas THEN f[r] ELSE a0[r]], cl |-> cl,
              nx |-> nextc + Cardinality(newIds), st |-> st, org |-> org] : f \in [unas -> tgt] }
 
-RelOK(q, a0, st0, S) == Chk("pass", PassRel(pool, a0, q, S.cur, S.asg, S.cl, clock, st0, Dev("KeepaliveCountsAll")))
+RelOK(q, a0, st0, S) == Chk("pass", PassRel(pool, a0, q, S.cur, S.asg, S.cl, clock, st0, {d \in {"KeepaliveCountsAll", "SurplusCountsStale"} : Dev(d)}))
 
 TCall(r) == \E S \in PassCands(Append(queue, r), asg, cst, Ev.obs) :
               CallW(r, S) /\ RelOK(Append(queue, r), asg, cst, S)
